@@ -190,6 +190,15 @@ func c13render(docs []c13doc, mode string) string {
 			b, _ := json.Marshal(dd)
 			sb.Write(b)
 			sb.WriteString("\n")
+		case "yaml-flow-documents":
+			// a YAML stream whose documents are written in flow style (what `jq -c` prints), separated by
+			// "---" and without a leading one: its first document is a complete JSON value
+			if i > 0 {
+				sb.WriteString("---\n")
+			}
+			b, _ := json.Marshal(dd)
+			sb.Write(b)
+			sb.WriteString("\n")
 		default:
 			if i > 0 {
 				sb.WriteString("---\n")
@@ -354,7 +363,7 @@ func TestC13(t *testing.T) {
 				refVerbs = append(refVerbs, verbs...)
 			}
 		}
-		modes := []string{"json", "yaml", "yaml-string-objects"}
+		modes := []string{"json", "yaml", "yaml-string-objects", "yaml-flow-documents"}
 		runs := map[string]c13run{}
 		inBubble(c, func(t *testing.T) {
 			for _, m := range modes {
